@@ -31,9 +31,9 @@ def setup(tmp, seed):
     rnames = ['ref0.fa', 'r/ref1.fasta.gz', 'ref2.gz', 'ref3.txt', 'other/ref0.fa.fasta']      # incl. a gzip extension with no FASTA extension before it
     env = dict(q=qs, r=rs, qnames=qnames, rnames=rnames)
     for qi_, (nm, c) in enumerate(zip(qnames, qs)):
-        W.write_fasta(os.path.join(tmp, 'qdir', nm), c, gz=nm.endswith('.gz'), mixed=(qi_ == 1))       # one query soft-masked (mixed case)
+        W.write_fasta(os.path.join(tmp, 'qdir', nm), c, gz=nm.endswith('.gz'), mixed=(qi_ == 1), members=2, width=[60, 13][qi_ % 2], final_eol=bool(qi_ % 2))       # one query soft-masked (mixed case)
     for nm, c in zip(rnames, rs):
-        W.write_fasta(os.path.join(tmp, 'rdir', nm), c, gz=nm.endswith('.gz'), eol='\r\n', lower=True)
+        W.write_fasta(os.path.join(tmp, 'rdir', nm), c, gz=nm.endswith('.gz'), eol='\r\n', lower=True, members=3)
     # references that carry the SAME file names (hence labels) as the queries but different contents
     for nm, c in zip(qnames, rs[:3]):
         W.write_fasta(os.path.join(tmp, 'rsame', nm), c, gz=nm.endswith('.gz'))
